@@ -531,3 +531,7 @@ mod test {
         }
     }
 }
+
+#[cfg(any(kani, libtw2_verif))]
+#[path = "/verif/kani/packer.rs"]
+mod verif_kani;
